@@ -12,6 +12,8 @@ checks = {
  "C12": dict(engine="choice", text="JSON round trip through the dispatching decoder, cbor->claims->json->claims->cbor byte equality and member-name/base64/omission checks for all valid claims-sets with <=3 (5) deviations", note="trusted: encoding/json as independent reader", technique=CHOICE),
  "C02": dict(engine="choice", text="every single-bit flip, truncation and structural-byte substitution of freshly signed tokens (7 algorithms), every splice of protected/payload/signature between 56 tokens, signature replacements, every other key type, and hand-signed envelopes without protected alg/payload: none may verify unless the signed content is unchanged", note="trusted: mcbor view of the envelope; assumes standard cryptographic hardness (a changed message verifies with negligible probability); ECDSA (r,n-s) malleability outside the alphabet", technique=CHOICE),
  "C03": dict(engine="choice", text="valid claims-sets (<=3/5 deviations) x 7 algorithms x 2 keys x Sign|ValidateAndSign: token parsed by the independent reader, signature re-verified with crypto/* over an independently built Sig_structure, decoded and compared claim by claim, claims = decoding of the covered payload (hook)", note="trusted: mcbor, crypto/*, fixed keys; uses the verif hook VerifMessage", technique=CHOICE),
+ "C05": dict(engine="choice", text="decode inputs enumerated exhaustively in 16 worker processes: every byte string of length <=2 (3), byte-level closure (substitution/truncation/deletion/insertion at every offset) and tree-level closure (every node replaced/deleted/duplicated/swapped, 1-2 mutations) of 16 CBOR/COSE/JSON seeds, hostile heads, nesting chains; every input goes to all 25 decode entry points under recover() and whatever decodes is validated, read, re-encoded and verified", note="trusted: recover() and worker exit status decide 'panic'; the fuzzing clause of the quantifier is replaced by exhaustive closures (DESIGN.md 7)", technique=CHOICE + "; worker subprocesses with journaled inputs"),
+ "C06": dict(engine="choice", text="the same enumerated inputs plus the hostile-head family (5 major types x 5 head widths x 16 declared lengths x 3 followers x 9 positions) and nesting chains; per call the heap allocation (runtime/metrics, single-goroutine worker) must stay below 1 MiB + 1 KiB per input byte, and the call must return (30 s stall watchdog, address-space limit: a worker death is attributed to the journaled input)", note="trusted: /gc/heap/allocs:bytes delta around each call; no short wall-clock oracle (5 s of the quantifier -> 30 s stall watchdog)", technique=CHOICE + "; worker subprocesses with journaled inputs and allocation accounting"),
  "C08": dict(engine="choice", text="the claims-sets of C01 driven through the seven validating gates; gate fails iff Validate() fails, nothing emitted/attached on failure, valid path equals the non-validating sibling", note="trusted: Validate() as the statement's oracle (its own correctness is C01)", technique=CHOICE),
  "C19": dict(engine="bfs", text="explicit-state BFS over all histories of 27 operations (attach, sign/validate-and-sign with 2 good and 5 faulty signers, 7 decode inputs, out-of-band claim replacement) on one real Evidence, to the fixpoint of the canonical state space, plus all undeduplicated sequences to depth 3 (4); C19's invariants checked in every state", note="trusted: canonical key (argued in DESIGN.md 5 C19, cross-checked by the differential oracle and the undeduplicated run), verif hook VerifMessage, independent rawVerify", technique="explicit-state breadth-first search over operation histories on the real object (state = history, canonical-key deduplication, fixpoint)"),
  "C20": dict(engine="choice", text="envelopes assembled by the independent encoder (tag x 4 element classes x array shape x trailing bytes, <=3/4 deviations) and the TF-M vectors: acceptance must imply a strict tagged COSE_Sign1 whose payload is a CBOR map", note="trusted: mcbor; one-directional oracle as stated; open encodings carry no verdict", technique=CHOICE),
